@@ -193,8 +193,8 @@ def msg_hash(ch: Choices, label: str, hostile: bool) -> tuple[str, Any]:
 
 
 def message(ch: Choices, label: str) -> bytes:
-    """Any-length message: 32 octets first (the only length the bindings sign for)."""
-    n = ch.pick([32, 0, 1, 31, 33, 64, 100], label + ".len")
+    """Any-length message; 32 octets half of the time (the one length MuSig2's bindings serve)."""
+    n = ch.pick([32, 32, 32, 32, 0, 1, 31, 33, 100], label + ".len")
     return ch.nbytes(n, label)
 
 
